@@ -145,6 +145,7 @@ func registerTime(reg func(string, intercept), nop intercept) {
 				c.Period = d
 			}
 		}
+		e.timers = append(e.timers, c)
 		return c
 	}
 	reg("time.After time.Tick", func(e *Engine, fr *frame, a []Value) Value {
@@ -190,6 +191,19 @@ func registerTime(reg func(string, intercept), nop intercept) {
 		tp := Ptr{B: &Backing{E: []Value{sb}}}
 		if e.cfg.Bounds["afterfunc_fires"] != 0 {
 			e.Spawn("AfterFunc", func(t *Thread) { e.call(nil, t, fn, nil, 0) })
+		} else if d, ok := a[0].(*Term); ok && e.clockPinned && e.now != nil && e.subst(e.now).IsConst() && e.subst(d).IsConst() {
+			// exact clock: the callback runs when the clock reaches now+d, unless stopped first
+			// (the channel is parked in the unused C field so that Timer.Stop finds it)
+			c := mkTimerChan(e, e.subst(d), false)
+			sb.E[0] = c
+			e.Spawn("AfterFunc", func(t *Thread) {
+				e.Block(func() bool { return !c.Timer || e.timerReady(c) }, "AfterFunc timer")
+				if !c.Timer {
+					return
+				}
+				e.timerFired(c)
+				e.call(nil, t, fn, nil, 0)
+			})
 		}
 		return tp
 	})
@@ -282,7 +296,16 @@ func registerJSON(reg func(string, intercept), nop intercept) {
 				}
 			}
 		}
-		if blob == nil {
+		var tree *jnode
+		if blob == nil && data.B != nil {
+			// concrete JSON text (literals, hand-written bodies): parse it for real
+			if txt := e.normStr(e.sliceTerms(data), nil); txt.IsConc() {
+				if tree = e.jsonParseText(txt.S); tree == nil && e.jsonHavoc == nil {
+					return e.mkError("invalid character in JSON text")
+				}
+			}
+		}
+		if blob == nil && tree == nil {
 			if h := e.jsonHavoc; h != nil {
 				return h(e, fr, data, dst)
 			}
@@ -300,6 +323,12 @@ func registerJSON(reg func(string, intercept), nop intercept) {
 			return e.mkError("json: Unmarshal(nil pointer)")
 		}
 		want := pt.Elem()
+		if tree == nil && blob.T == nil {
+			tree = e.blobTree(blob)
+		}
+		if tree != nil {
+			return e.jsonUnmarshalTree(tree, p, want)
+		}
 		src := blob.T
 		snap := blob.Snap
 		// Marshal(&x) and Marshal(x) encode the same
@@ -321,7 +350,7 @@ func registerJSON(reg func(string, intercept), nop intercept) {
 				e.store(p, e.deepSnap(snap, 0))
 				return Iface{}
 			}
-			panic(e.unsupported(fmt.Sprintf("json round trip between different types %s -> %s", src, want)))
+			return e.jsonUnmarshalTree(e.blobTree(blob), p, want)
 		}
 		e.store(p, e.deepSnap(snap, 0))
 		return Iface{}
